@@ -26,11 +26,13 @@ package c08
 // known to stay within the budget as well.
 
 import (
+	"fmt"
 	"math/big"
 	"strconv"
 	"strings"
 
 	"rare/pkg/expressions"
+	"rare/pkg/expressions/funcfile"
 	"rare/pkg/expressions/funclib"
 )
 
@@ -348,5 +350,40 @@ func newGuardedBuilder(opt bool) *expressions.KeyBuilder {
 	kb := expressions.NewKeyBuilderEx(opt)
 	kb.Funcs(guardedTable)
 	kb.Funcs(funclib.Additional)
+	addUserFunctions(kb, true)
 	return kb
+}
+
+// userFuncsFile is a functions file (docs/usage/funcsfile.md) loaded into
+// every builder with rare's own loader, the way `rare --funcs` does: the
+// bodies read their arguments through the lazy argument context, also at
+// indexes that were not passed and at -1. No body uses an argument twice (a
+// nest of such calls would honestly cost 2^depth evaluations).
+const userFuncsFile = `# C08 user functions
+u_double {multi {0} 2}
+u_pick {if {0} {1} {2}}   # missing arguments read empty
+u_div {divi {0} {1}}
+u_edge {-1}{5}{k}{99}
+u_rep {repeat x {0}}
+u_nest {u_div {1} \
+   {u_double {0}}}
+u_arr {@map {0} "{sumi {0} {k}}"}
+`
+
+var userFuncNames = []string{"u_double", "u_pick", "u_div", "u_edge", "u_rep", "u_nest", "u_arr"}
+
+func addUserFunctions(kb *expressions.KeyBuilder, note bool) {
+	fns, err := funcfile.LoadDefinitions(kb, strings.NewReader(userFuncsFile), "c08.funcs")
+	if err != nil || len(fns) != len(userFuncNames) {
+		panic(fmt.Sprintf("c08: user functions did not load: %v (%d of %d)", err, len(fns), len(userFuncNames)))
+	}
+	if note {
+		for name, f := range fns {
+			name, f := name, f
+			kb.Func(name, func(args []stage) (stage, error) {
+				noteCall(name, len(args))
+				return f(args)
+			})
+		}
+	}
 }
